@@ -319,7 +319,7 @@ def wl_cms(ctx, rng, case):
                  (Fraction(2**56 - 1, 2**56), Fraction(1, 3)), (Decimal("0.99999999999999999999"), Decimal("0.5")), (1 - 1e-15, 0.25)]
     elif rng.random() < 0.5:
         c, e = rng.choice(exact)
-        e = str(round(rng.uniform(0.0003, 0.9), rng.randint(3, 5)))
+        e = str(max(round(rng.uniform(0.0003, 0.9), rng.randint(3, 5)), 0.001))  # (never rounded down to 0: a zero error rate is refused, as documented)
         todo.append((Decimal(c), Decimal(e)) if rng.random() < 0.5 else (Fraction(c), Fraction(e)))
 
     def D(x):
